@@ -89,13 +89,17 @@ def gen_case(rng):
             b = ('l', [member(rng, 1), member(rng, 1)])
         base.append((S('t'), a))
         layers.append(('m', [(S('t'), b)]))
-    pre = rng.choice(['', 'x', 'pre ', 'é=', '"', '{'])
-    post = rng.choice(['', ' post', '!', '}', '\\\\'[:1] + 'n'])
-    if '\\' in post:
-        post = ' end'
+    # literal pieces as (written, rendered): dollars and backslashes that are not markers stay as
+    # they are, an escaped marker loses its backslash
+    pre_w, pre = rng.choice([('', ''), ('x', 'x'), ('pre ', 'pre '), ('é=', 'é='), ('"', '"'), ('{', '{'),
+                             ('$', '$'), ('cost $5 ', 'cost $5 '), ('$HOME/', '$HOME/'), ('a\\b ', 'a\\b '),
+                             ('\\${esc} ', '${esc} '), ('\\$[inv] ', '$[inv] ')])
+    post_w, post = rng.choice([('', ''), (' post', ' post'), ('!', '!'), ('}', '}'), (' end', ' end'),
+                               (' $', ' $'), (' && echo $HOME', ' && echo $HOME'), (' c:\\dir', ' c:\\dir'),
+                               (':\\${X}', ':${X}')])
     if pre == '' and post == '':
-        post = '.'
-    base.append((S('s'), S(pre + '${t}' + post)))
+        post_w = post = '.'
+    base.append((S('s'), S(pre_w + '${t}' + post_w)))
     rng.shuffle(base)
     return [('m', base)] + layers, pre, post, shape
 
